@@ -51,6 +51,19 @@ Definition py_lt (a b : json) : result bool :=
   | _, _ => RErr E_TYPE
   end.
 
+(* a <= b *)
+Definition py_le (a b : json) : result bool :=
+  match numval a, numval b with
+  | Some x, Some y => ROk (x <=? y)
+  | None, None =>
+      match a, b with
+      | JStr s, JStr t => ROk (negb (str_ltb t s))
+      | JArr _, JArr _ => RErr E_UNMODELLED
+      | _, _ => RErr E_TYPE
+      end
+  | _, _ => RErr E_TYPE
+  end.
+
 (* n -= c  for an int literal c *)
 Definition py_sub_int (a : json) (c : Z) : result json :=
   match a with
